@@ -3,6 +3,7 @@ Model coq/FileIO/Close.v (+ Modes.v, Script.v, Tree.v), proofs CloseProofs.v; im
 harness/drv_C11.cpp (shared interpreter harness/fileio_*.hpp) with the kill harness (`killrun`)."""
 import random
 from engine import Prop, Case
+import engine
 import fileio_gen as G
 
 COMPS = ['none', 'deflate']
@@ -49,8 +50,24 @@ class C11(Prop):
                     'stale-call enumeration harness/fileio_stale.hpp (hand-enumerated from include/nix/*.hpp; classes touch/cached read off the source)',
                     'kill harness in harness/fileio_driver.hpp (fork, replay, SIGKILL, reopen)']
 
+    repo = '/repo'
+
+    def run_check(self, tier, seed, repo='/repo'):
+        self.repo = repo
+        return engine.run_check(self, tier, seed, repo)
+
+    # mutators that overwrite an EXISTING attribute (or create objects): every HDF5 write of theirs is checked, none loops
+    RO_ATTEMPTS = ['Block.type', 'Block.definition', 'Block.forceUpdatedAt', 'File.forceUpdatedAt', 'File.forceId', 'DataArray.type',
+                   'DataArray.label.overwrite', 'DataArray.unit.overwrite', 'DataArray.expansionOrigin.overwrite', 'Section.type',
+                   'Section.repository.overwrite', 'Property.unit.overwrite', 'Property.uncertainty.overwrite', 'Tag.type',
+                   'MultiTag.definition', 'Group.type', 'Source.definition', 'Feature.linkType', 'SampledDimension.label.overwrite',
+                   'SampledDimension.samplingInterval', 'RangeDimension.unit.overwrite', 'SetDimension.label.overwrite',
+                   'DataFrame.type', 'File.createBlock', 'Block.createDataArray', 'Section.createProperty.value',
+                   'DataArray.setData.value', 'Property.values.overwrite', 'Tag.position.overwrite']
+
     def generate(self, seed, tier, scale=1):
         rnd = random.Random(seed)
+        uc = 1 if G.unlink_checked(self.repo)[0] else 0
         thorough = tier != 'quick' or scale > 1
         stale = G.stale_calls()
         by_kind = {}
@@ -117,6 +134,25 @@ class C11(Prop):
                 k = rnd.choice(free)
                 n, c = rnd.choice(by_kind[k])
                 lines.append('stale %s %s %s' % (n, c, k))
+            # a READ-ONLY session on the same file (same process, the stale handles of the first session still alive):
+            # live handles of its own, refused mutators, then close -> released, its handles stale
+            if hi % 2 == 0:
+                held_ro = {}
+                lines.append('open ro %s 0' % rnd.choice(COMPS + ['auto']))
+                lines.append('cmp')
+                for k in rnd.sample(G.KINDS, rnd.randint(1, 8) if hi % 6 else len(G.KINDS)):
+                    n = rnd.choice([1, 2, 3, 40])
+                    lines.append('hold %s %d' % (k, n))
+                    held_ro[k] = n
+                for m in rnd.sample(self.RO_ATTEMPTS, rnd.randint(1, 6)):
+                    lines.append('mutin %s %d' % (m, uc))
+                lines += rnd.choice([[], ['battery'], ['flush'], ['blk nope', 'flush']])
+                lines += ['cmp', 'close']
+                flat = [(k, n, c) for k in held_ro for (n, c) in by_kind.get(k, [])]
+                for i in range(min(40, len(flat))):
+                    k, n, c = flat[(rr + i * 5) % len(flat)]
+                    lines.append('stale %s %s %s' % (n, c, k))
+                rr += 13
             # same process: reopen (the stale handles are still alive)
             r = rnd.random()
             if r < 0.4:
@@ -135,6 +171,11 @@ class C11(Prop):
         cases.append(Case(['fs missing', 'open rw none 0', 'flush', 'close', 'killrun'], 'minimal'))
         cases.append(Case(['fs missing', 'open ow deflate 0', 'blk a', 'flush', 'blk b', 'flush', 'close', 'open ro none 0', 'close', 'killrun'], 'minimal'))
         cases.append(Case(['fs lib', 'open ro none 0', 'flush', 'close', 'close', 'flush', 'killrun'], 'minimal'))
+        # the smallest read-only sessions: a refused overwrite / one live handle, then reopen for writing
+        cases.append(Case(['fs missing', 'open rw none 0', 'rich r', 'close', 'open ro none 0', 'mutin Block.type %d' % uc, 'close',
+                           'open rw none 0', 'dump', 'close', 'open ow none 0', 'close', 'killrun'], 'minimal'))
+        cases.append(Case(['fs missing', 'open rw none 0', 'rich r', 'close', 'open ro none 0', 'hold block 1', 'close',
+                           'stale Block.type touch block', 'open rw none 0', 'dump', 'close', 'open ow none 0', 'close', 'killrun'], 'minimal'))
         return cases
 
     def signature(self, case, impl, spec):
